@@ -1,26 +1,118 @@
 """the words of MANIFEST.json, per property"""
 NOT_YET = {}
+
+COMMON_NOTE = ("Trusted: Coq 8.16.1 kernel + vm_compute; vlib/translate.py (source -> Gen/*.v), vlib/ser.py, the correspondence "
+               "generators (coverage in evidence); the HT semantics Sem/*.v as a rendering of clingo's (Abstract Gringo); "
+               "axiom Classical_Prop.classic where Print Assumptions lists it. clingo/Python oracles only replay known findings, "
+               "run a fixed corpus as support and search for a concrete failing input after an obligation broke.")
+
+
+def T(text, technique, note=COMMON_NOTE):
+    return {"text": text, "note": note, "technique": technique}
+
+
 TEXTS = {
-    "C18": {
-        "text": "Coq theorems (Props/C18.v) state, for every program of the AST mirror, that the modelled collectors return exactly "
-                "the predicates occurring in rules/objectives (predicates_complete), that every predicate never occurring as a "
-                "positive head atom is returned by auto_detect_input, that a predicate derived by a statement whose body does not "
-                "mention it is never returned, and that auto_detect_output is exactly the shown ones; the model (Model/Traverse.v) "
-                "is tied to utils/ast.py and utils/globals.py by correspondence on thousands of statements/programs per run. "
-                "The pool defect is a known finding and is excluded by the theorems' pool_free premise.",
-        "note": "Trusted: Coq kernel + vm_compute, ser.py, correspondence generators (coverage reported in evidence); clingo's parser "
-                "is not modelled; theory atoms and classically negated atoms are outside the mirror.",
-        "technique": "Coq proof over hand-written model + vm_compute correspondence with the Python collectors",
-    },
-    "C19": {
-        "text": "The option tables, VerifyEnable.__call__, the keyword wiring in __main__ and optimize's signature are *translated from the "
-                "source on every run* (Gen/Cli.v); Props/C19.v proves for every token list of any length that a trait is enabled iff the "
-                "documented expansion says so, that 'none' combined is rejected, default = all but duplication, the nine keywords receive "
-                "membership of their own names. argparse/stdin/stdout are outside Coq: the translated action is compared with the real "
-                "parser on all token lists up to length 3 (exhaustive) plus random longer ones, and python -m ngo is run against "
-                "optimize() on trait subsets, predicate options and log levels.",
-        "note": "Trusted: Coq kernel, vlib/translate.py (fail-closed Python-ast translator), the assumption that `while x in v: v.remove(x)` "
-                "removes all occurrences and that sorted() on str is byte-lexicographic; argparse and I/O are observed, not proved.",
-        "technique": "Coq proof over source-translated definitions + exhaustive small-scope correspondence with argparse + CLI/API differential runs",
-    },
+    "C01": T("PARTIAL. Proved (Props/C01.v): the relations equiv_out / equiv_all / cons_ext compose over any number of loop iterations "
+             "of any pass list (pipeline_preserves), equiv_all and cons_ext imply equality on the outputs, statement-level "
+             "HT-equivalence lifts to programs; the pipeline order, guards and constructor arguments of api.optimize are *translated "
+             "from the source on every run* and proved to be the documented ones. Per-pass soundness is supplied by C05, C08-C16 "
+             "only on their fragments (see those checks); the always-on pipeline (preprocess/exline/postprocess) and cleanup are "
+             "hand-modelled in Coq and tied to the code by correspondence. Known defects of the unchanged tree are listed as "
+             "KNOWN-FINDINGs.",
+             "Coq proof (compositional shell over Sem/Sat.v) + source-translated pipeline + vm_compute correspondence"),
+    "C02": T("PARTIAL. Proved: the value of a sum over a tuple *set* is independent of the enumeration, sums over tuple sets that "
+             "cannot coincide add, coinciding tuples count once, equal tuple sets give equal cost (Sem/Cost.v), the telescoping "
+             "identity min D + sum of chain steps = max used by the chain passes; the tuple-distinctness test potentially_unifying is "
+             "modelled, tied by correspondence and proved sound on well-formed terms (refuted outside, KNOWN-FINDING). Not shown: "
+             "transfer of stable models for the chain passes.",
+             "Coq proof (cost algebra, telescoping) + correspondence of potentially_unifying"),
+    "C03": T("PARTIAL. Proved: every modelled loop terminates within its fuel (UniqueNames/UniqueVariables loops by pigeonhole, "
+             "unification), generated tables are total; models return exceptions as values and are compared with the real code "
+             "including the exception class (binding, normalize, cleanup, dependency). NOT provable here and said so: termination of "
+             "the outer `while True` of api.optimize and Python-level resource exhaustion; these are observed: optimize is run under a "
+             "watchdog on the fixed corpus for 12 trait selections. Known crashes are KNOWN-FINDINGs identified by exception class + "
+             "innermost ngo frame.",
+             "Coq proof (fuel bounds) + correspondence incl. exception classes + watchdog runs"),
+    "C04": T("PARTIAL. Proved: every predicate / variable name the modelled naming functions can produce is a lexically valid gringo "
+             "identifier (prefix constants generated from utils/globals.py; numbered variants), Variable(\"none\") is not. Safety, "
+             "print/parse fidelity and AST-vs-text agreement involve clingo's C++ parser/printer/grounder and are observed only: every "
+             "statement optimize returns on the fixed corpus is added to a ProgramBuilder, grounded, printed and re-parsed.",
+             "Coq proof (lexical validity over generated constants) + observed ProgramBuilder/ground/print-parse runs"),
+    "C05": T("Proved (Props/C05.v) at literal/atom level under the HT semantics and lifted to programs: splitting positive and doubly "
+             "negated comparison chains, dropping #inf/#sup guards and moving the right guard to the left (over the *generated* guard "
+             "tables), #count = #sum+ of ones; refuted: splitting a negated chain (KNOWN-FINDING). The whole of normalize.py incl. "
+             "unpool, exline and inline_arithmetic and the `--enable none` pipeline are modelled (Model/Normalize.v) and tied by 8 "
+             "correspondence families. Not shown: exline/inline equalities and old-aggregate conversion at the semantic level.",
+             "Coq proof (HT equivalences) + source-translated tables + vm_compute correspondence of normalize.py"),
+    "C06": T("PARTIAL. Proved: definition folding (fresh atoms defined by non-recursive rules) is a bijection between the stable models "
+             "of source and result, for arbitrary body formulas (Meta/Fold.v), and a conservative extension preserves the outputs. "
+             "The link from each pass's output to the folding schema is not closed; chain passes add recursive definitions for which "
+             "only the T-level characterisations (C12/C20) are proved.",
+             "Coq proof (G3a folding bijection)"),
+    "C07": T("Proved (Props/C07.v) for *every* history of naming requests: new_predicate / new_auxpredicate / make_unique return names "
+             "that are fresh w.r.t. the known set and pairwise distinct, never run out of fuel, and UniqueNames' initial set covers all "
+             "predicates of rules/objectives and the inputs; refuted: declared output / #show predicates are not in the known set. "
+             "Models tied by correspondence on random colliding request histories. Pass-through of non-rule statements and input heads "
+             "are observed on the fixed corpus.",
+             "Coq proof (invariant over request histories) + vm_compute correspondence"),
+    "C08": T("PARTIAL. Proved (Meta/Cleanup.v): supportedness; removing body literals implied - through the intersection over all "
+             "defining rules, closed transitively - by a retained positive atom never loses an answer set (arbitrary bodies) and never "
+             "adds one (bodies monotone in H); #true/#false elimination. cleanup.py is fully modelled (Model/Cleanup.v, incl. its "
+             "defects) and tied by 5 correspondence families. The link 'the modelled mappings satisfy the schema's premises' "
+             "(mapping_meaning) is not closed; five defects are KNOWN-FINDINGs.",
+             "Coq proof (G2 cleanup meta-theorem) + vm_compute correspondence of cleanup.py"),
+    "C09": T("PARTIAL. Proved (Meta/Drop.v): rules defining atoms that nothing observes can be dropped (restriction maps stable models "
+             "onto stable models, every stable model of the kept part extends). unused.py is hand-modelled and tied by correspondence "
+             "when Model/Unused.v is present. Position projection and copy-rule unfolding are not linked; defects are KNOWN-FINDINGs.",
+             "Coq proof (G4 drop) + correspondence"),
+    "C10": T("PARTIAL. Proved: the folding bijection (G3a) that a factored-out literal set instantiates. literal_duplication.py itself is "
+             "not modelled; the clingo differential run over the fixed corpus is support only.",
+             "Coq proof (G3a folding bijection)"),
+    "C11": T("PARTIAL. Proved (Meta/Count.v) for any strict total order: a symmetric join under != fires iff the ordered join under < "
+             "fires; k pairwise distinct members iff a strictly increasing k-tuple iff count >= k. symmetry.py itself is not modelled; "
+             "the link (crosscheck implies invariance) is not closed; defects are KNOWN-FINDINGs.",
+             "Coq proof (G5 counting vs joining)"),
+    "C12": T("PARTIAL. Proved (Meta/Chain.v) for finite sorted domains of any size: the generated next predicate is exactly the "
+             "successor relation, the chain predicate is the down-closure of the element values, its top is the maximum, telescoping; "
+             "negate_comparison (generated) is exact. minmax_aggregates.py is not modelled; transfer of minimality is not shown.",
+             "Coq proof (G6 chain meaning) + source-translated tables"),
+    "C13": T("PARTIAL. Proved: guaranteed_leq/geq (translated from source) are sound bounds, supportedness (at most one value per group "
+             "follows from a single bounded defining rule), telescoping sums, disjoint tuple sets add. sum_aggregates.py itself is not "
+             "modelled; three unsound at-most-one inferences are KNOWN-FINDINGs.",
+             "Coq proof over source-translated definitions + G6/G8"),
+    "C14": T("PARTIAL, the weakest claim: sympy's Groebner/solve core is not modelled. Proved: compare/negate/rhs2lhs tables (generated) "
+             "are exact over the integers, the slack encoding of comparisons is exact, merging #sum aggregates with distinct __agg tags "
+             "adds (and is wrong without tags), #sum+ ignores negative weights, X = Y*3 is not solvable over the integers (the defect).",
+             "Coq proof (integer algebra) + source-translated tables"),
+    "C15": T("PARTIAL. Proved: potentially_unifying (modelled, tied by correspondence) is sound on well-formed terms - if two tuples can "
+             "evaluate to the same values the test answers True - and refuted outside (unique vs unique(), unary minus on negative "
+             "symbols: KNOWN-FINDING with a clingo replay); sums over tuple sets that cannot coincide add. inline.py itself is not modelled.",
+             "Coq proof (soundness of the distinctness test) + correspondence"),
+    "C16": T("PARTIAL. Proved: the folding bijection (G3a) a rule split instantiates; projection.py (good_split, project_rule, execute) is "
+             "fully modelled (Model/Projection.v) and tied by 5 correspondence families. The link good_split => folding premises is "
+             "not closed.",
+             "Coq proof (G3a) + vm_compute correspondence of projection.py"),
+    "C17": T("PARTIAL. In-place mutation, hashing and cross-process behaviour are facts of the Python runtime that Gallina values cannot "
+             "exhibit; they are observed (argument compared before/after, repeated and history-shifted runs, PYTHONHASHSEED variation). "
+             "Proved: the modelled functions that iterate over Python sets return order-independent results (auto_detect_input "
+             "membership), and the naming state is history-deterministic (C07 theorems).",
+             "observed purity runs + Coq proof of order-independence of modelled set iterations"),
+    "C18": T("Coq theorems (Props/C18.v) state, for every program of the AST mirror, that the modelled collectors return exactly the "
+             "predicates occurring in rules/objectives, that every predicate never occurring as a positive head atom is returned by "
+             "auto_detect_input, that a predicate derived by a statement whose body does not mention it is never returned, and that "
+             "auto_detect_output is exactly the shown ones; the model is tied to utils/ast.py and utils/globals.py by correspondence. "
+             "Atoms written with a pool are a KNOWN-FINDING.",
+             "Coq proof over hand-written model + vm_compute correspondence with the Python collectors"),
+    "C19": T("The option tables, VerifyEnable.__call__, the keyword wiring in __main__ and optimize's signature are translated from the "
+             "source on every run (Gen/Cli.v); Props/C19.v proves for every token list of any length that a trait is enabled iff the "
+             "documented expansion says so, 'none' combined is rejected, default = all but duplication, the nine keywords receive "
+             "membership of their own names. argparse/stdin/stdout are outside Coq: the translated action is compared with the real "
+             "parser on all token lists up to length 3 (exhaustive) plus random longer ones, and python -m ngo is run against "
+             "optimize() on trait subsets, predicate options and log levels.",
+             "Coq proof over source-translated definitions + exhaustive small-scope correspondence with argparse + CLI/API differential runs"),
+    "C20": T("PARTIAL. Proved (Meta/Chain.v) in terms of the extensions of the auxiliary predicates in any interpretation that satisfies "
+             "and supports the generated rules (true of every stable model by the supportedness theorem): next is exactly the successor "
+             "relation of the domain, chain is the down-closure. dependency.py (static analysis, domain rules, naming cache, generators) "
+             "is modelled and tied by correspondence. dom over-approximation is false under negation / input predicates (KNOWN-FINDINGs).",
+             "Coq proof (G6) + vm_compute correspondence of dependency.py"),
 }
